@@ -6,7 +6,9 @@ Import ListNotations.
 Local Open Scope R_scope.
 
 Definition AR : arcops R :=
-  mkArcOps R Rplus Rminus Rmult Rdiv Ropp sqrt (fun x y => if Rgt_dec x y then true else false) 0 1 2.
+  mkArcOps R Rplus Rminus Rmult Rdiv Ropp sqrt (fun x y => if Rgt_dec x y then true else false) 0 1 2
+           (fun x y => if Rle_dec x y then true else false) (fun x y => if Rge_dec x y then true else false)
+           (fun x y => if Rlt_dec x y then true else false) PI (2 * PI) acos cos sin.
 
 Lemma quad_pos a b x y : 0 < a -> 0 < b -> 0 < x * x + y * y -> 0 < a * (x * x) + b * (y * y).
 Proof.
